@@ -81,8 +81,19 @@ def run(c):
         base = [x for s_, ts in zip(mv["mand"], [q for q in t["slots"] if q["mand"]]) for x in (([s_["len"]] if ts["lsz"] == 1 else [s_["len"] >> 8, s_["len"] & 255] if ts["lsz"] == 2 else []) + s_["v"][:(s_["len"] if ts["lsz"] else len(s_["v"]))])]
         u = unknown_octet(t["name"])
         add("plain", base + [u] * 3000)
-        if thorough or rng.random() < 0.1:
-            add("plain", base + [u] * 66000)
+        add("plain", base + [u] * 66000)          # beyond 65 535 octets: a 16-bit position or length inside a decoder wraps here
+        if thorough:
+            add(FAM_ENTRY[t["family"]], base + [u] * 131100)
+    # every optional element of every message repeated (last duplicate wins): k instances may cost k times the element, never
+    # k times a maximum-size element - the allocation bound has room for ONE maximum-size element
+    for m, (b0, singles) in sorted(singles_by_message(gen).items()):
+        byiei = {}
+        for e in singles: byiei.setdefault(e[0] if e[0] < 128 else e[0] // 16, []).append(e)
+        for iei, es in sorted(byiei.items()):
+            one = min(es, key=len)
+            add("plain", b0 + one * 6)
+            if thorough or rng.random() < 0.2:
+                add("plain", b0 + one * 64 + max(es, key=len))
     # self-similar inputs: a message nested again and again inside its own container element (must stay linear)
     for t in TABLES:
         if t["family"] == "ENV": continue
